@@ -34,7 +34,7 @@ RULE = ("one run = one seeded history on a real Headers object over a real heade
         "beyond the tip; re-sent stored headers; checkpoint chunks served honest/altered/truncated/extended "
         "through ensure_chunk_at/get_raw_header; close + fault (cut at a byte offset incl. a family enumerating "
         "every offset of the last three headers, whole-header overwrite of tip/non-tip headers with zero/random "
-        "bytes, bit flips in non-tip headers) + reopen. Non-trivial = at least one invalid "
+        "bytes, bit flips in non-tip headers) + reopen; families anyheight (no checkpoints, 1..1100 headers, the same damage plus a garbage tail after an aligned cut at ANY height incl. below 999 and genesis) and shortfork (the chain becomes shorter by a fork at a lower height, close, reopen, with the old tail below / across / above height 999; then extension or another shorter fork and a second reopen). Non-trivial = at least one invalid "
         "batch was offered or one fault fired or one fork connected; distinct = distinct event-trace digest.")
 COMPONENTS = {
     'real': ['lbry.wallet.header.Headers (connect, validate_chunk, validate_header, get_next_block_target, '
@@ -55,10 +55,18 @@ ASSUMPTIONS = [
     'that cannot be hit by sampling: neither mined headers nor the insufficient-work headers fall in that band',
     'PoW comparison `>` vs `>=` differs only for pow_hash == target exactly, which needs a hash preimage: not testable',
     'faults are applied to the file between close() and the next open() (Headers only writes the file in close())',
-    'validity is asserted up to the end of the most recently connected batch; stale headers of a longer old '
-    'branch beyond a shorter fork are treated like damaged headers for the restart clauses',
-    'damage model: tip = whole-header overwrite only; all damaged positions strictly above the first header '
-    'repair looks at (max(checkpoints)+1000, 999 without checkpoints); no damage inside check-pointed chunks and no fork below a checkpoint',
+    'validity is asserted up to the end of the most recently connected batch',
+    'restart clauses: "what was stored" is the in-memory chain at close(); bytes of an older, longer chain that '
+    'close() leaves in the file behind it are NOT excused (loaded chain longer than the stored one = not a prefix; '
+    'a valid tip dropped because it does not link to that tail = dropped too much); site stale_tail=True',
+    'damage model: tip = whole-header overwrite only (a partial change of the tip that spares its parent-hash field '
+    'is invisible to any link check); no damage inside check-pointed chunks and no fork below a checkpoint',
+    'damage positions: a store WITHOUT checkpoints has no check-pointed chunk, so every height qualifies (families '
+    'anyheight/shortfork: any height incl. genesis, files shorter than 1000 headers; site below_999_no_checkpoints); '
+    'the older families keep their positions above 999 so that their scenarios stay what they were',
+    'with checkpoints damage is generated strictly above max(checkpoints)+1000; that height itself (first header above '
+    'the check-pointed chunks) is left out: repair() does not link it to the last check-pointed header, so a whole-'
+    'header overwrite of a tip at exactly that height is kept - reported observation, not asserted',
     'the chain is judged modulo all-zero placeholders of check-pointed chunks that were not downloaded yet; while such a '
     'placeholder exists an unaligned cut makes open() run repair() from height 0, which meets the placeholder instead of '
     'the genesis header and truncated the whole file: genuine defect, repaired in /repo (known_findings.json '
@@ -73,7 +81,8 @@ EXPECTED_PROBES = [
     'chunk_uncheckpointed_ignored', 'zero_filled_open', 'full_walk', 'mined_clamp_low', 'mined_clamp_high',
     'mined_neg_delta', 'mined_capped', 'mined_trunc_vs_floor', 'tip_on_repair_batch_edge', 'base_prefix_short',
     'chunk_stored_below_top', 'reject_after_midfile_write', 'extend_after_midfile_write', 'empty_batch',
-    'sparse_start',
+    'sparse_start', 'closed_shorter_than_file', 'closed_shorter_below_999', 'closed_shorter_above_999',
+    'store_shorter_than_1000', 'damage_below_999',
 ] + ['cut_enum_slice_%02d' % i for i in range(21)]   # every byte offset of the last three headers (336 = 21 x 16)
 
 HS = lc.HEADER_SIZE
@@ -220,9 +229,108 @@ def _pos_probe(r, big, top):
     return out
 
 
+RESTART_FAMILIES_FRACTION = 0.2     # share of runs taken by the `anyheight` / `shortfork` families (own rng stream)
+
+
+def _fault_any(r):
+    """Damage at ANY height of a store without checkpoints (no checkpointed chunk => every position is
+    "above the last checkpointed chunk"), files shorter than 1000 headers included."""
+    def pos(allow_tip):
+        how = r.choice(['anyfrac', 'anyfrac', 'abs', 'back'])
+        if how == 'anyfrac':
+            return ['anyfrac', round(r.random(), 4)]
+        if how == 'abs':
+            return ['abs', r.choice([0, 1, 2, 35, 36, 37, 71, 72, 500, 997, 998, 999, 1000, 1001])]
+        return ['back', r.choice([0, 0, 1] if allow_tip else [1, 1, 2, 3, 36, 37])]
+    kind = r.choices(['overwrite', 'overwrite_tip', 'bitflip', 'garbage_tail', 'cut_hdr', 'cut_back', 'multi'],
+                     [26, 14, 22, 14, 8, 8, 8])[0]
+    if kind == 'overwrite':
+        return [{'kind': 'overwrite', 'any': True, 'pos': pos(True), 'fill': r.choice(['zero', 'random']),
+                 'seed': r.getrandbits(32)}]
+    if kind == 'overwrite_tip':
+        return [{'kind': 'overwrite', 'any': True, 'pos': ['back', 0], 'fill': r.choice(['zero', 'random']),
+                 'seed': r.getrandbits(32)}]
+    if kind == 'bitflip':
+        return [{'kind': 'bitflip', 'any': True, 'pos': pos(False), 'bit': r.randrange(HS * 8)}]
+    if kind == 'garbage_tail':      # file cut at a header boundary, garbage (or zero) headers after it
+        return [{'kind': 'garbage_tail', 'pos': pos(True), 'm': r.choice([1, 1, 2, 5, 40]),
+                 'fill': r.choice(['zero', 'random', 'random']), 'seed': r.getrandbits(32)}]
+    if kind == 'cut_hdr':
+        return [{'kind': 'cut', 'hdr_back': r.choice([1, 1, 2, 3, 36, 500])}]
+    if kind == 'cut_back':
+        return [{'kind': 'cut', 'back': r.randrange(1, 337)}]
+    out = []
+    for _ in range(r.randrange(2, 4)):
+        if r.random() < 0.5:
+            out.append({'kind': 'overwrite', 'any': True, 'pos': pos(True), 'fill': r.choice(['zero', 'random']),
+                        'seed': r.getrandbits(32)})
+        else:
+            out.append({'kind': 'bitflip', 'any': True, 'pos': pos(False), 'bit': r.randrange(HS * 8)})
+    if r.random() < 0.3:
+        out.append({'kind': 'cut', 'back': r.randrange(1, 337)})
+    return out
+
+
+def _shorter_fork(r, big, depth=None):
+    d = depth or r.choice([2, 3, 5, 8, 13, 20, 30])
+    f = _batch(r, big, fork=d)
+    f['n'] = r.randrange(1, d)
+    f['deltas'] = _deltas(r, f['n'])
+    f['split'] = _split(r, f['n'])
+    return f
+
+
+def _gen_restart(r, big):
+    """Families of the restart clauses with nothing excused: `anyheight` = stores without checkpoints (also
+    shorter than 1000 headers) damaged at any height; `shortfork` = the chain becomes SHORTER (fork at a lower
+    height, new tip below the old one), close, reopen - the old tail lies below, across or above height 999."""
+    fam = r.choice(['anyheight', 'anyheight', 'shortfork', 'shortfork'])
+    sc = {'family': fam, 'cp': 0, 'init': 'file', 'base_len': N1, 'full_walk': r.random() < 0.1,
+          'server_delay': 0.0, 'ops': []}
+    ops = sc['ops']
+    if fam == 'anyheight':
+        sc['base_len'] = r.choice([1, 2, 3, 5, 36, 37, 38, 73, 200, 500, 998, 999, 1000, 1001, 1036, 1100, 1100])
+        for _ in range(r.randrange(1, 4)):
+            for _ in range(r.choice([0, 0, 1, 2])):
+                k = r.choices(['ext', 'ext_bad', 'fork', 'feed'], [50, 15, 20, 15])[0]
+                if k == 'feed':
+                    ops.append({'op': 'feed', 'n': r.choice([1, 2, 5, 40]), 'split': []})
+                else:
+                    ops.append(_batch(r, big, fork=(k == 'fork') and r.choice([1, 2, 3]), bad=(k == 'ext_bad'),
+                                      nmax=r.choice([2, 5])))
+            ops.append({'op': 'reopen', 'faults': _fault_any(r)})
+        if r.random() < 0.4:
+            ops.append(_batch(r, big, nmax=3))
+    else:
+        if r.random() < 0.2:
+            sc['cp'] = 1
+            sc['base_len'] = r.choice([1050, 1100])
+        else:
+            sc['base_len'] = r.choice([30, 200, 600, 998, 1000, 1005, 1010, 1030, 1100, 1100])
+        if r.random() < 0.3:
+            ops.append(_batch(r, big, nmax=3))
+        ops.append(_shorter_fork(r, big))
+        if r.random() < 0.25:
+            ops.append(_nothing_stored(r, big))
+        ops.append({'op': 'reopen', 'faults': [] if r.random() < 0.8 else (_fault(r, True) if sc['cp'] else _fault_any(r))})
+        tail = r.choice(['none', 'ext', 'ext', 'fork', 'reject'])
+        if tail == 'ext':
+            ops.append(_batch(r, big, nmax=3))
+        elif tail == 'fork':
+            ops.append(_shorter_fork(r, big, r.choice([2, 3, 5])))
+        elif tail == 'reject':
+            ops.append(_nothing_stored(r, big))
+        if tail != 'none':
+            ops.append({'op': 'reopen', 'faults': []})
+    return sc
+
+
 def gen(run_seed, tier):
-    r = stream('C07.gen', run_seed)
     big = tier != 'quick'
+    r2 = stream('C07.gen.restart', run_seed)       # own stream: the scenarios of the other families stay as they were
+    if r2.random() < RESTART_FAMILIES_FRACTION:
+        return _gen_restart(r2, big)
+    r = stream('C07.gen', run_seed)
     fams = ['connect', 'reopen', 'cut_enum', 'checkpoint', 'stale']
     w = [38, 30, 8, 17, 7 if ENABLE_STALE_FAMILY else 0]
     fam = r.choices(fams, w)[0]
@@ -952,8 +1060,14 @@ class _Exec:
                 F = f.read()
         except OSError:
             F = b''
-        R = pre + F[len(pre):]          # what must be on disk if close() persisted the in-memory image
+        R = pre                         # what was STORED: the in-memory chain that close() was asked to persist
         Rh = len(R) // HS
+        stale_tail = len(F) > len(pre)  # close() left bytes of an older, longer chain behind the stored one
+        if len(prev_file) > len(pre):
+            run.probes['closed_shorter_than_file'] += 1
+            run.probes['closed_shorter_' + ('below_999' if Rh < 999 else 'above_999')] += 1
+        if Rh < 1000:
+            run.probes['store_shorter_than_1000'] += 1
         tip, rs = Rh - 1, self.rs
         Fp = bytearray(F)
         D = []
@@ -961,21 +1075,29 @@ class _Exec:
         flips = []
         cut_at = None
 
-        def resolve(pos, allow_tip):
+        def resolve(pos, allow_tip, anywhere=False):
             how, v = (pos or ['back', 1])[:2]
             if how == 'back':
                 p = tip - int(v)
             elif how == 'low':
                 p = rs + 1 + int(v)
+            elif how == 'abs':
+                p = int(v)
+            elif how == 'anyfrac':
+                p = int(float(v) * Rh)
             else:
                 p = rs + 1 + int(float(v) * max(0, tip - rs))
-            if rs < p <= tip and (allow_tip or p < tip) and (p + 1) * HS <= len(Fp):
+            # without checkpoints there is no check-pointed chunk: every height is "above the last one"
+            floor = -1 if anywhere and not self.cps else rs
+            if floor < p <= tip and (allow_tip or p < tip) and (p + 1) * HS <= len(Fp):
+                if p < 999 and not self.cps:
+                    run.probes['damage_below_999'] += 1
                 return p
             return None
         for ft in op.get('faults') or []:
             kind = ft.get('kind')
             if kind == 'overwrite':
-                p = resolve(ft.get('pos'), True)
+                p = resolve(ft.get('pos'), True, bool(ft.get('any')))
                 if p is None:
                     run.probes['fault_skipped'] += 1
                     continue
@@ -986,7 +1108,7 @@ class _Exec:
                 run.faults[name] += 1
                 kinds.append(name)
             elif kind == 'bitflip':
-                p = resolve(ft.get('pos'), False)
+                p = resolve(ft.get('pos'), False, bool(ft.get('any')))
                 if p is None:
                     run.probes['fault_skipped'] += 1
                     continue
@@ -996,9 +1118,22 @@ class _Exec:
                 D.append(p)
                 run.faults['bitflip'] += 1
                 kinds.append('bitflip_prev' if 32 <= bit < 288 else 'bitflip')
+            elif kind == 'garbage_tail':
+                p = resolve(ft.get('pos'), True, True)
+                if p is None or len(op.get('faults')) != 1:
+                    run.probes['fault_skipped'] += 1
+                    continue
+                m = max(1, int(ft.get('m', 1)))
+                fill = bytes(m * HS) if ft.get('fill') == 'zero' else random.Random(ft.get('seed', 0)).randbytes(m * HS)
+                Fp = bytearray(bytes(Fp[:p * HS]) + fill)
+                D.append(p)
+                run.faults['garbage_tail'] += 1
+                kinds.append('garbage_tail')
             elif kind == 'cut':
                 lo = self.top * HS
-                if 'back' in ft:
+                if 'hdr_back' in ft:
+                    c = (len(F) // HS - int(ft['hdr_back'])) * HS
+                elif 'back' in ft:
                     c = len(F) - int(ft['back'])
                 else:
                     c = lo + int(float(ft.get('frac', 0.5)) * max(0, len(F) - lo))
@@ -1040,7 +1175,7 @@ class _Exec:
             with open(self.path, 'wb') as f:
                 f.write(Fp)
         run.ev('faults', [(k,) for k in kinds], cut_at, sorted(D), len(F), len(Fp))
-        return {'R': R, 'Fp': Fp, 'D': D, 'kinds': kinds or ['none']}
+        return {'R': R, 'Fp': Fp, 'D': D, 'kinds': kinds or ['none'], 'stale_tail': stale_tail}
 
     def after_open(self, ctx):
         """Restart clauses: loaded bytes are a prefix of what was stored, validate, and at most the
@@ -1071,28 +1206,39 @@ class _Exec:
             run.probes['tip_on_repair_batch_edge'] += 1
         fi_R = self.fi(R)[0]
         run.ev('open', L2, Rh, Wc, fi_R, _short(loaded))
+        # which input class: a tail of an older, longer chain that close() left in the file behind the stored
+        # chain / the first thing wrong with the file lies below height 999 of a store without checkpoints
+        stale_tail = bool(ctx.get('stale_tail'))
+        wrong = list(D) + ([Rh] if stale_tail else [])
+        cls = {'stale_tail': stale_tail,
+               'below_999_no_checkpoints': bool(not self.cps and wrong and min(wrong) <= 999)}
+        if stale_tail:
+            run.probes['stale_tail_in_file'] += 1
         if loaded != R[:L2 * HS] or L2 > Rh:
             d = lc.common_prefix_headers(loaded, R)
-            return self.viol('C07.reopen_not_prefix', f'after {fault} the loaded chain ({L2} headers) differs from '
-                             f'the {Rh} stored headers at height {d} (file had {Wc} whole headers, damaged {sorted(D)})',
-                             fault=fault, tip_edge=edge, **self._uop_site())
+            return self.viol('C07.reopen_not_prefix', f'after {fault} the loaded chain ({L2} headers) is not a prefix '
+                             f'of the {Rh} headers stored at close(): first difference at height {d} (the file had '
+                             f'{Wc} whole headers' + (f', {Wc - Rh} of them the tail of an older chain that close() '
+                                                      f'left behind the stored one' if stale_tail and Wc > Rh else '')
+                             + f'; damaged {sorted(D)})', fault=fault, tip_edge=edge, **cls, **self._uop_site())
         cands = list(D) + ([fi_R] if fi_R < Rh else [])
         first_bad = min(cands) if cands else None
-        need = Wc if first_bad is None or first_bad >= Wc else first_bad - 1
+        need = min(Rh, Wc if first_bad is None or first_bad >= Wc else first_bad - 1)
         if L2 < need:
-            return self.viol('C07.reopen_dropped_too_much', f'after {fault} {L2} headers were loaded; {Wc} whole '
-                             f'headers were in the file, first damaged/stale height {first_bad}: at least {need} '
-                             f'must survive', fault=fault, tip_edge=edge, **self._uop_site())
+            return self.viol('C07.reopen_dropped_too_much', f'after {fault} {L2} headers were loaded; {Rh} headers '
+                             f'were stored at close(), the file had {Wc} whole headers, first damaged height '
+                             f'{first_bad}: at least {need} must survive', fault=fault, tip_edge=edge, **cls,
+                             **self._uop_site())
         fi_L = min(fi_R, L2)
         rule = self.chain.first_invalid(R, fi_L, fi_L + 1)[1] if fi_L < L2 else None
         if fi_L < L2 and fi_L == Wc - 1 and rule in ('bits', 'pow') and fi_L not in D:
             # left-over of an earlier damaged (not overwritten) header that a later cut turned into the
             # tip: its parent-hash field is intact, so it is outside "tip = whole-header overwrite"
             run.probes['residual_partial_tip'] += 1
-        elif fi_L < L2 and not (aligned and fi_R <= self.rs):
+        elif fi_L < L2 and not (aligned and self.cps and fi_R <= self.rs):
             return self.viol('C07.reopen_invalid', f'after {fault} the loaded chain has {L2} headers but the one at '
                              f'height {fi_L} breaks rule {rule} (damaged {sorted(D)}, file had {Wc} whole headers)',
-                             fault=fault, tip_edge=edge)
+                             fault=fault, tip_edge=edge, **cls)
         if L2 == Rh and Fp == R:
             run.probes['reopen_clean_identical'] += 1
         if L2 < Wc:
@@ -1149,7 +1295,7 @@ class _Exec:
                 segs.append([])
             else:
                 segs[-1].append(op)
-        ctx = {'R': initial, 'Fp': initial, 'D': [], 'kinds': ['initial']}
+        ctx = {'R': initial, 'Fp': initial, 'D': [], 'kinds': ['initial'], 'stale_tail': False}
         for i, seg in enumerate(segs):
             if i:
                 # clean close(): nothing is suspended on the old loop, so the (expensive) collection
